@@ -446,6 +446,8 @@ def c_join(it, recv, a):
 
 
 CONTRACTS["rayon::join"] = c_join
+# ASSUMED (rayon): Some(index) on a pool worker, None elsewhere - an input of the environment: both answers are explored (path split)
+CONTRACTS["rayon::current_thread_index"] = lambda it, recv, a: VOpaque("rayon_current_thread_index")
 
 unit("prover.blind_wire_polynomials", PV, "Prover::blind_wire_polynomials",
      [("witnesses", lambda: VArr([Sym(f"w{i}") for i in range(4)], "array")),
